@@ -52,13 +52,14 @@ func vfC06Turns(thorough bool) []vfC06TurnKind {
 		{"log-then-error", VfTurn{Logs: []string{"ERROR:uh-oh"}, Fail: "plain"}},
 		// an empty data batch is still that turn's one data batch
 		{"emit-zero-rows", VfTurn{Emit: 1, Rows: 0}},
+		// every way a turn can fail exists with and without logs emitted first:
+		// logs are collected next to data batches and must not count as one
+		{"log-only-no-emit", VfTurn{Logs: []string{"INFO:nothing"}}},
+		{"2logs-no-emit", VfTurn{Logs: []string{"WARN:still", "DEBUG:nothing"}}},
+		{"log-then-panic", VfTurn{Logs: []string{"INFO:pre"}, Fail: "panic"}},
+		{"log-then-emit-twice", VfTurn{Logs: []string{"INFO:pre2"}, Emit: 2, Rows: 1}},
 	}
-	if thorough {
-		ts = append(ts,
-			vfC06TurnKind{"log-only-no-emit", VfTurn{Logs: []string{"INFO:nothing"}}},
-			vfC06TurnKind{"log-then-panic", VfTurn{Logs: []string{"INFO:pre"}, Fail: "panic"}},
-		)
-	}
+	_ = thorough // both tiers use the same turn alphabet; thorough goes one input deeper
 	return ts
 }
 
